@@ -118,6 +118,10 @@ def _ops():
         ("shutil.rmtree(predir)", lambda sb: shutil.rmtree(j(sb, "predir"))), ("shutil.rmtree(newdir)", lambda sb: shutil.rmtree(j(sb, "newdir"))),
         ("Path(pre.txt).unlink()", lambda sb: Path(j(sb, "pre.txt")).unlink()), ("Path(new.txt).unlink()", lambda sb: Path(j(sb, "new.txt")).unlink()),
         ("Path(newdir).rmdir()", lambda sb: Path(j(sb, "newdir")).rmdir()),
+        # pre-existing paths whose names merely start like a path the code creates (newdir, new.txt): siblings, not children
+        ("open(newdir.bak,'a')", w("newdir.bak", "a")), ("open(new.txt.orig,'w')", w("new.txt.orig", "w")),
+        ("shutil.copyfile(pre.txt,newdirx/keep.txt)", lambda sb: shutil.copyfile(j(sb, "pre.txt"), j(sb, "newdirx", "keep.txt"))),
+        ("os.replace(new.txt,new.txt.orig)", lambda sb: os.replace(j(sb, "new.txt"), j(sb, "new.txt.orig"))),
         ("open(./pre.txt via relative path,'a')", None),     # filled in below: relative path spelling of a pre-existing file
     ]
 
@@ -158,6 +162,12 @@ def _mk_sandbox():
     with open(os.path.join(sb, "predir", "inner.txt"), "w") as fh:
         fh.write("I")
     os.mkdir(os.path.join(sb, "emptydir"))
+    for name, text in (("newdir.bak", "B"), ("new.txt.orig", "O")):
+        with open(os.path.join(sb, name), "w") as fh:
+            fh.write(text)
+    os.mkdir(os.path.join(sb, "newdirx"))
+    with open(os.path.join(sb, "newdirx", "keep.txt"), "w") as fh:
+        fh.write("K")
     return sb
 
 
@@ -250,7 +260,8 @@ def _check_histories(part: Part, tier, seed):
                 continue
             part.violation(clause, f"{kind}:{'+'.join(h)}",
                            {"history": list(h), "path": path, "kind": kind,
-                            "sandbox": "pre.txt='P', predir/inner.txt='I', emptydir/ pre-exist; every operation's exception is swallowed"},
+                            "sandbox": "pre.txt='P', predir/inner.txt='I', emptydir/, newdir.bak='B', new.txt.orig='O', "
+                                       "newdirx/keep.txt='K' pre-exist; every operation's exception is swallowed"},
                            target=f"{FS}:FilesystemIsolation")
 
 
